@@ -283,6 +283,16 @@ func pickReturn(n int) c02Pick {
 	}
 }
 
+func pickReturnResult(n, idx int) c02Pick {
+	return func(s *source, fd *ast.FuncDecl) (ast.Expr, bool) {
+		a, ok := c02Nth(fd, n, func(a *ast.ReturnStmt) bool { return len(a.Results) > idx })
+		if !ok {
+			return nil, false
+		}
+		return a.Results[idx], true
+	}
+}
+
 func pickCallArg(callee string, n, arg int) c02Pick {
 	return func(s *source, fd *ast.FuncDecl) (ast.Expr, bool) {
 		a, ok := c02Nth(fd, n, func(a *ast.CallExpr) bool { return s.src(a.Fun) == callee && len(a.Args) > arg })
@@ -547,6 +557,7 @@ func init() {
 		// ---- the other anchors
 		e.shapeDef(s, "core/load/nopshedder.go", "nopShedder.Allow", "nopAllowShape")
 		e.c02Text(s, "core/load/nopshedder.go", "nopShedder.Allow", "nopAllowReturns", pickReturn(0))
+		e.c02Text(s, "core/load/nopshedder.go", "nopShedder.Allow", "nopAllowError", pickReturnResult(0, 1))
 		e.shapeDef(s, "core/load/nopshedder.go", "nopPromise.Pass", "nopPassShape")
 		e.shapeDef(s, "core/load/nopshedder.go", "nopPromise.Fail", "nopFailShape")
 		e.shapeDef(s, "core/load/sheddergroup.go", "ShedderGroup.GetShedder", "getShedderShape")
